@@ -106,7 +106,32 @@ CLAIM = {
             'conversion in thorough): oracles on regenerated large inputs, index-level and conversion '
             'correspondences (the value-level model driver is not run at that size: its lazy function matrices are '
             'far too slow there); every theorem is for all sizes. R14 exposed and fixed: gmd geometric mean '
-            'overflow (np.prod of 300 singular values).',
+            'overflow (np.prod of 300 singular values). THIRD ROBUSTNESS ROUND (harness/props/c20_robust.py, '
+            'Model/C20Robust.lean): R15 distinct values that are merely close - subspaces a principal angle 1.5e-8..1.4e-3 '
+            'apart (cosines 1 - 1e-16..1 - 1e-6, i.e. inside every isclose tolerance of one), bases of magnitude 1e-9..1e-15, '
+            'singular values / eigenvalues a relative 1e-6..one ulp apart or tiny, gmd tol a relative 1e-9 above / below / '
+            'exactly at / one ulp above a singular value, diagonal updates a relative 1e-6 apart or 1e-9 of the matrix, '
+            'conversion arguments next to 1 / 0 / 30 / each other (2.4e9 vs 2.4e9 + 2e4, adjacent doubles, equal to the 12th '
+            'decimal): every call against a first-principles value for THAT input (analytic principal angles, U diag(S) V^H '
+            'with prescribed spectra, 60-digit decimal arithmetic) inside sequences of neighbouring inputs, tolerances a few '
+            'hundred ulp times the condition number and no absolute floor (oracles R15.*); correspondence of the tapped '
+            'singular values -> angles, of the eigenvalue selection on close spectra and of the conversions at strictly '
+            'relative accuracy. THEOREMS distinct_projectors_positive_distance, principal_angles_clamp_only_above_one, '
+            'angle_distance_zero_only_for_unit_cosines, selectors_resolve_every_strict_difference, '
+            'diagonal_update_takes_effect_for_every_nonzero_value, diagonal_update_distinct_for_distinct_values, '
+            'conversion_distinct_values_distinct_results. R16 argument identity and buffer reuse - every public entry point '
+            'that takes an array (20 entry points and the Projection object) in histories of 2-4 calls on ONE preallocated '
+            'array per parameter refilled in place, the same array in two roles (chordal distances / principal angles of '
+            '(A, A), gmd(U, S, U), project / oProject / reflect of the array the object was built from, reflect of its own '
+            'result written back), arguments overwritten right after the call, an equal-content copy at the end; results '
+            'checked from first principles only (no interposed fresh call), earlier results unchanged, no aliasing (oracles '
+            'R16.history, R16.projection); correspondence: the same histories against the Lean heap machine (driver op hist: '
+            'projWith / chordal2 / project / reflect / updateInvSumDiag / gmd / conversions applied to the contents at call '
+            'time) plus, for the routines whose model takes kernel results only, the requirement that every call of a history '
+            'makes exactly the kernel calls of a fresh call on the contents at call time. THEOREMS '
+            'call_reads_contents_at_call_time, earlier_results_unchanged_by_later_calls, calls_leave_buffers_unchanged, '
+            'result_depends_on_contents_only (generic in the pure function called), same_object_in_both_roles, '
+            'projection_of_own_basis. That numpy kernels are pure functions of their arguments is part of the trusted base.',
 }
 
 EPS = 2.220446049250313e-16
@@ -1572,6 +1597,9 @@ ORACLES = {
     'Projection.history': o_projection_history,
     'independence': o_independence,
 }
+from harness.props import c20_robust  # noqa: E402  (R15 / R16 classes)
+
+ORACLES.update(c20_robust.ORACLES)
 
 
 def run_oracle(ctx, call_name, case, key=None, nontrivial=True):
@@ -2679,6 +2707,16 @@ def correspondence(ctx, scale):
             ctx.tie_broken('correspondence', fn.__name__,
                            'exception while running the implementation: %r\n%s' % (e, traceback.format_exc()[-1200:]))
             ctx.required_branches = []
+    try:                                   # R15 / R16: histories on reused arrays, close-but-distinct values
+        c20_robust.correspondence(ctx, scale == 1)
+    except core.Infra:
+        raise
+    except Exception as e:
+        import traceback
+        ctx.branch('disagree:c20_robust.correspondence')
+        ctx.tie_broken('correspondence', 'R15/R16 histories',
+                       'exception while running the implementation: %r\n%s' % (e, traceback.format_exc()[-1200:]))
+        ctx.required_branches = []
 
 
 # ------------------------------------------------------------------ oracles
@@ -2824,7 +2862,11 @@ def check(ctx):
                 'Hermitian positive definite covariances incl. repeated eigenvalues (identity + rank one, prescribed '
                 'spectra); Hermitian matrices with eigenvalue margin for the selectors; positive reals 1e-15..1e15 '
                 'and dB values -150..150 for the conversions; non-trivial = distinct (function, shape, field, '
-                'generator kind, case index)')
+                'generator kind, case index); R15: deterministic + seeded sets of close-but-distinct values (principal angles '
+                '1.5e-8..1.4e-3, singular values / eigenvalues a relative 1e-6..one ulp apart or of magnitude 1e-9..1e-15, tol '
+                'next to a singular value, conversion arguments next to 1 / 0 / each other), each in sequences of neighbours; '
+                'R16: histories of 2-4 calls per entry point on ONE array per parameter refilled in place, the same array in '
+                'two roles, Projection objects over a reused basis array')
     quick = ctx.tier == 'quick'
     scale = 1 if quick else 250
     core.prove(ctx, MODULE, generated=['C20Conversion'], drivers=[DRIVER], scratch=ctx.scratch)
@@ -2856,6 +2898,7 @@ def check(ctx):
                               'oracle-R12:order-of-listing', 'oracle-R13:derived-objects', 'oracle-R14:count>256']
     ctx.required_branches += ['oracle-R2:array-shape-', 'oracle-R2:array-shape-0', 'oracle-R2:array-shape-2x1x3',
                               'oracle-R3:independence', 'oracle-R4:rejected-calls', 'oracle-R7:object-history']
+    ctx.required_branches += c20_robust.CORR_BRANCHES + c20_robust.ORACLE_BRANCHES
     try:
         correspondence(ctx, scale)
     except core.Infra as e:
@@ -2864,6 +2907,7 @@ def check(ctx):
         ctx.notes.append('correspondence skipped: %s' % e)
         ctx.required_branches = []
     oracles(ctx, scale)
+    c20_robust.oracles(ctx, run_oracle, quick)
     r_class_oracles(ctx, scale if quick else max(1, scale // 5))
     if not quick:
         exhaustive_shapes(ctx)
@@ -2872,6 +2916,9 @@ def check(ctx):
 def search(ctx):
     """deeper failing-input search, used when a proof / correspondence broke"""
     before = len(ctx.failures)
+    c20_robust.oracles(ctx, run_oracle, False)      # R15 / R16 at thorough size
+    if len(ctx.failures) > before:
+        return
     for _ in range(4):
         oracles(ctx, 3)
         if len(ctx.failures) > before:
